@@ -246,7 +246,7 @@ CHECKS = {
               "integer parser's result fits int64 so conversion and negation incl. -2^63 are defined; every range stored in a returned tree lies inside "
               "the input. The model reads its input only through total list operations on the given bytes, so it cannot depend on memory outside "
               "input[0,length) - by construction. That the C code does not either is monitored, not proved: generated, extension, truncated-at-every-offset, "
-              "mutated, NUL/invalid-UTF-8 and byte-context documents in the four configurations run in the ASan+UBSan -O1 build (input in an exact-size heap "
+              "mutated, NUL/invalid-UTF-8 and byte-context documents in the four configurations run in the ASan+UBSan -O1 build and the clang MemorySanitizer build (input in an exact-size heap "
               "block) and in the -O2 -msse4.2 build with the last byte flush against a PROT_NONE page, read-only input pages and every start phase mod 16, "
               "followed by hash/equal/lookup/accessor scripts on the tree; all outputs must equal the model's."),
         design_ref="DESIGN.md section 6, C01",
@@ -262,7 +262,7 @@ CHECKS = {
               "Tied to the code by builder lives under all schedules of length <=5 (7 thorough) x 5 initial capacities x 13 element counts and duplicate "
               "checks of 2..1400 elements under the four failure combinations, through library (static functions called in the unity build with the "
               "allocators macro-wrapped) and model. Whole-reader part is monitoring, not proof: with malloc/calloc/realloc/free/edn_arena_alloc wrapped at "
-              "link time, for every document of a corpus covering every reader, growth path, lazy materialisation and error path, every request index k is "
+              "link time, for every document of a corpus covering every reader, growth path, lazy materialisation and error path, every request index k (arena requests and the mallocs made inside the arena's slow path alike; every raw malloc/calloc/realloc always, the rest sampled in the quick tier) is "
               "failed alone and from k on; the call must return the complete fault-free tree (lazily materialised payloads possibly unavailable) or NULL "
               "plus an error, leave no live block, and raise no ASan report (stack-use-after-return detection on)."),
         design_ref="DESIGN.md section 6, C16",
@@ -276,7 +276,7 @@ CHECKS = {
               "in which the duplicate check examines elements (qsort/address order in C), which scratch allocations succeed, the state of the hash caches, "
               "what follows a form in the buffer and which blanks precede it. That the compiled code computes this one function whatever the compiler, heap "
               "and schedule is monitoring, not proof: generated, mutated, truncated and extension documents (incl. sets/maps of composites in the sorted-"
-              "strategy range) are read with message texts by gcc -O0/-O2/-O3, clang -O2 and ASan+UBSan builds (identical results, equal to the model); again "
+              "strategy range) are read with message texts by gcc -O0/-O2/-O3, clang -O2, ASan+UBSan and MemorySanitizer builds (identical results, equal to the model; no use of uninitialised memory); again "
               "in shuffled order interleaved with unrelated reads under two MALLOC_PERTURB_ fill patterns and from read-only guard-page mappings (identical to "
               "the first read); by 2, 4, 8 and 16 threads sharing input buffers and a read-only registry under ThreadSanitizer and -O2 (every dump equals "
               "the single-threaded one, no race); nm audit: no writable global in the library objects besides the external-type table."),
